@@ -214,6 +214,51 @@ func (e *Engine) intrinsic(name string) stubFn {
 		return func(m *Machine, c *frame, fn *ssa.Function, a []Value) Value {
 			return sym.StrPrefixOf(m.term(a[1]), m.term(a[0]))
 		}
+	case "vrf_protect":
+		// vrf_protect(field, mutex interface{}, label string): *field may only be accessed holding *mutex
+		return func(m *Machine, c *frame, fn *ssa.Function, a []Value) Value {
+			f, _ := a[0].(Iface)
+			mu, _ := a[1].(Iface)
+			fp, ok1 := f.V.(*Value)
+			mp, ok2 := mu.V.(*Value)
+			if !ok1 || !ok2 || fp == nil || mp == nil {
+				m.end(endEngineError, "vrf_protect needs two non-nil pointers")
+			}
+			if m.protected == nil {
+				m.protected = map[*Value]*protInfo{}
+			}
+			m.protected[fp] = &protInfo{mutex: mp, label: constStr(m, a[2], "label")}
+			return nil
+		}
+	case "vrf_interference":
+		// vrf_interference(mutex interface{}, f func()): f runs at every acquisition of *mutex
+		return func(m *Machine, c *frame, fn *ssa.Function, a []Value) Value {
+			mu, _ := a[0].(Iface)
+			mp, ok := mu.V.(*Value)
+			if !ok || mp == nil {
+				m.end(endEngineError, "vrf_interference needs a non-nil mutex pointer")
+			}
+			if m.interfere == nil {
+				m.interfere = map[*Value][]Value{}
+			}
+			m.interfere[mp] = append(m.interfere[mp], a[1])
+			return nil
+		}
+	case "vrf_shared":
+		// vrf_shared(field interface{}, f func()): an unsynchronised field; f (another
+		// goroutine's write) runs before every read of it
+		return func(m *Machine, c *frame, fn *ssa.Function, a []Value) Value {
+			f, _ := a[0].(Iface)
+			fp, ok := f.V.(*Value)
+			if !ok || fp == nil {
+				m.end(endEngineError, "vrf_shared needs a non-nil pointer")
+			}
+			if m.shared == nil {
+				m.shared = map[*Value]*protInfo{}
+			}
+			m.shared[fp] = &protInfo{havoc: a[1]}
+			return nil
+		}
 	case "vrf_yield":
 		// let the program's other goroutines run until each of them blocks
 		return func(m *Machine, c *frame, fn *ssa.Function, a []Value) Value {
